@@ -48,6 +48,12 @@ class C19(Prop):
     assumptions = ["matplotlib stores the data it is given; rendering is outside the model"]
 
     def generate(self, tier, rng):
+        for n, etas in ([(3000, 100), (200, 1500)] if tier == "quick" else [(3000, 100), (200, 1500), (6000, 100), (50, 6000)]):
+            # many observations / a very long threshold grid (any chunking of the computation must cover every eta)
+            y = [rng.randint(0, 40) / 4 for _ in range(n)]
+            cols = [[rng.randint(0, 40) / 4 for _ in range(n)]]
+            yield {"stream": "murphy", "y": y, "cols": cols, "f": rng.choice(["mean", "quantile"]), "level": 0.25, "w": None,
+                   "etas": etas if etas == 100 else [k * 10 / etas for k in range(etas + 1)]}
         N = 350 if tier == "quick" else 6000
         for k in range(N):
             kind = ["reliability", "murphy", "bias"][k % 3]
